@@ -47,3 +47,25 @@ def longest_run_tables(ex, st, prog):
 
 
 PYCHECKS = {'longest_run_tables': longest_run_tables}
+
+
+def fft_roots(ex, st, prog):
+    """the twiddle table produced by the executed roots(N) (libm sin/cos on concrete arguments) against exp(-2 pi i n/N)
+    evaluated with 50 digits: |E[n] - w^n| <= 4e-15 (the argument -2 pi n/N is itself rounded: up to ~1.4e-15)"""
+    import mpmath
+    mpmath.mp.dps = 50
+    res = []
+    fn = prog.funcs['github.com/Trisia/randomness/fft.roots']
+    for N in (2, 4, 8, 16, 64, 256, 1024):
+        s2, vals_ = ex.call_fn(fn, [N], st)
+        cells = ex.slice_cells(s2, vals_[0])
+        worst = 0.0
+        for n, c in enumerate(cells):
+            w = mpmath.e ** (-2j * mpmath.pi * n / N)
+            err = max(abs(mpmath.mpf(c.re) - w.real), abs(mpmath.mpf(c.im) - w.imag))
+            worst = max(worst, float(err))
+        res.append(('roots(%d) within 4e-15 of exp(-2 pi i n/N)' % N, len(cells) == N and worst <= 4e-15, 'worst %.3g' % worst))
+    return res
+
+
+PYCHECKS['fft_roots'] = fft_roots
